@@ -173,7 +173,34 @@ def followup():
     return [body0(), body1(), repr(apischema.serialize(W, W(K(3))))]
 '''
 
-QUICK = ["H1_deser_selfrec", "H2_ser_selfrec", "H3_shared_member", "H4_mutual", "H7_plain_control"]
+H_SRC["H10_schema_same_direction"] = '''
+from apischema.json_schema import deserialization_schema, serialization_schema, JsonSchemaVersion
+class Raw:
+    def __init__(self, x): self.x = x
+@dataclass
+class Point(metaclass=DetMeta):
+    x: int = 0
+@deserializer
+def raw_from_point(p: Point) -> Raw: return Raw(p.x)
+@serializer
+def raw_to_point(r: Raw) -> Point: return Point(r.x)
+@dataclass
+class Rec(metaclass=DetMeta):
+    r: Raw
+    p: Point = field(default_factory=Point)
+    nxt: Optional["Rec"] = None
+def body0(): return repr(deserialization_schema(Rec))
+def body1(): return repr(deserialization_schema(List[Rec], all_refs=True))
+BODIES = [body0, body1]
+def followup():
+    return [body0(), body1(), repr(serialization_schema(Rec))]
+'''
+
+H_SRC["H11_ser_schema_same_direction"] = H_SRC["H10_schema_same_direction"].replace(
+    "def body0(): return repr(deserialization_schema(Rec))", "def body0(): return repr(serialization_schema(Rec))"
+).replace("def body1(): return repr(deserialization_schema(List[Rec], all_refs=True))", "def body1(): return repr(serialization_schema(List[Rec], all_refs=True))")
+
+QUICK = ["H1_deser_selfrec", "H2_ser_selfrec", "H3_shared_member", "H4_mutual", "H7_plain_control", "H10_schema_same_direction"]
 ALL = list(H_SRC)
 
 
@@ -197,6 +224,12 @@ def shared_state_codes(instr: bool, wide=True):
 
     line = []
     seen = set()
+    if wide == "all":
+        # every function of every apischema module: no assumption on where shared state lives
+        for name, m in sorted(sys.modules.items()):
+            if m is not None and (name == "apischema" or name.startswith("apischema.")) and not name.startswith("apischema.graphql"):
+                line += e3.code_objects(m, seen)
+        return line, []
     if wide == "tiny":
         # the recursion analysis, the caches and the lazily compiled recursive methods only
         for m in (rec, cch):
@@ -398,14 +431,18 @@ def run_config(plan, instr, wide, max_schedules=None, nworkers=None) -> infra.St
 def main(tier: str, t0: float) -> int:
     if tier == "quick":
         st = run_config([(h, 1) for h in QUICK], False, True)
-        plan_desc = {"wide line points, 1 preemption": QUICK}
+        everywhere_q = ["H1_deser_selfrec", "H2_ser_selfrec", "H9_validators_conv"]
+        st.merge(run_config([(h, 1) for h in everywhere_q], False, "all"))
+        plan_desc = {"wide line points, 1 preemption": QUICK, "line points in every apischema module, 1 preemption": everywhere_q}
     else:
         st = run_config([(h, 1) for h in ALL], False, True)
         two = ["H1_deser_selfrec", "H2_ser_selfrec", "H3_shared_member", "H4_mutual", "H5_generic_rec", "H9_validators_conv"]
         st.merge(run_config([(h, 2) for h in two], False, "tiny"))
         core4 = ["H1_deser_selfrec", "H2_ser_selfrec", "H3_shared_member", "H4_mutual"]
         st.merge(run_config([(h, 1) for h in core4], True, False))
-        plan_desc = {"wide line points, 1 preemption": ALL, "recursion/cache line points, 2 preemptions": two, "bytecode points on recursion core, 1 preemption": core4}
+        everywhere = ["H1_deser_selfrec", "H2_ser_selfrec", "H9_validators_conv", "H10_schema_same_direction", "H11_ser_schema_same_direction"]
+        st.merge(run_config([(h, 1) for h in everywhere], False, "all"))
+        plan_desc = {"wide line points, 1 preemption": ALL, "recursion/cache line points, 2 preemptions": two, "bytecode points on recursion core, 1 preemption": core4, "line points in every apischema module, 1 preemption": everywhere}
     st.counters["evaluations"] = st.counters.get("schedules", 0)
     outcomes = sum(len(v) for k, v in st.sets.items() if k.startswith("outcomes:"))
     return infra.finish(
